@@ -587,7 +587,7 @@ func save2(repo *repository.Repository, plain []byte) restic.ID {
 func streamC43(h *H) {
 	repo, _ := NewRepo(0, repository.Options{})
 	key := repo.Key()
-	n := h.N(600, 12000)
+	n := h.N(600, 6000)
 	for i := 0; i < n; i++ {
 		if i%4 == 3 {
 			c43RepoCase(h)
